@@ -91,7 +91,9 @@ def d2_decimation(ctx):
         fn = cfg.node_for(filt[0])
         for _, _, _, _, s in picks[CLS + ".extract_lfp"]:
             pn = cfg.node_for(s)
-            ctx.check(cfg.must_pass([fn], pn) and fn.id != pn.id, fi, s, s, "decimation follows the anti-alias low-pass",
+            # same statement: the pick is applied to the filter's own result ( sosfiltfilt(..)[:, ::ratio] )
+            nested = fn.id == pn.id and any(n_ is filt[0] for n_ in ast.walk(s.value))
+            ctx.check((cfg.must_pass([fn], pn) and fn.id != pn.id) or nested, fi, s, s, "decimation follows the anti-alias low-pass",
                       "decimation happens before (or without) the low-pass: aliasing", key="filter-first")
         # filter coefficients
         ok_sos = any(loc_name(c.args[0]) == "self.sos_lp" for c in filt if c.args)
@@ -103,8 +105,9 @@ def d2_decimation(ctx):
     for st in walk_function(ifi.node):
         if isinstance(st, ast.Assign) and loc_name(st.targets[0]) == "self.taper":
             v = st.value
-            if isinstance(v, ast.Subscript) and isinstance(v.value, ast.Attribute) and v.value.attr == "r_":
-                parts = v.slice.elts if isinstance(v.slice, ast.Tuple) else [v.slice]
+            from sa.struct import concat_parts
+            parts = concat_parts(v)
+            if parts is not None:
                 n = Poly.const(0)
                 for p in parts:
                     if isinstance(p, ast.Constant):
